@@ -7,5 +7,5 @@ ASSUME ndJsonSerialize("evalstats.ndjson", <<[cases |-> Len(Obs),
    nontrivial |-> Cardinality({k \in DOMAIN Obs :
         \/ Obs[k].case.kind = "scale" /\ Obs[k].case.n # Obs[k].case.replicas
         \/ Obs[k].case.kind = "list" /\ Len(Obs[k].case.pods) > 1
-        \/ Obs[k].case.kind = "replicas"})]>>)
+        \/ Obs[k].case.kind \in {"replicas", "replicaseq"}})]>>)
 =============================================================================
